@@ -61,16 +61,18 @@ Q = chr(34) * 2
 
 
 # ------------------------------------------------------------------ schedules
-def sched_line(variant: str, kinds: List[str], workers: Optional[List[int]], fine: List[int]) -> str:
+def sched_line(variant: str, kinds: List[str], workers: Optional[List[int]], fine: List[int], extra: str = "") -> str:
+    """`extra`: state the attempt starts in (" P": `_state` already holds a lock object; " N" / " S": the
+    shared variable held nothing / a stale id before `prep_client`)"""
     if variant == "local":
-        return f"c18 local T {list_s(kinds)} {list_s(fine)}"
-    return f"c18 dist {list_s(kinds)} {list_s(workers)} {list_s(fine)}"
+        return f"c18 local T {list_s(kinds)} {list_s(fine)}{extra}"
+    return f"c18 dist {list_s(kinds)} {list_s(workers)} {list_s(fine)}{extra}"
 
 
 def check_run(R: Run, variant: str, kinds, workers, gate: bool, obs: Dict[str, Any], tag: str,
               oracle: bool = True):
     """register the correspondence case of one real run and evaluate the property on it"""
-    line = sched_line(variant, kinds, workers, obs["fine"])
+    line = sched_line(variant, kinds, workers, obs["fine"], obs.get("extra", ""))
     outs = obs["outcomes"]
     sig = f"{variant}|{tag}|" + ("raised" if any(o not in ("ok",) for o in outs) else "ok")
     R.corr(line, lambda: obs["text"], sig=sig)
@@ -134,10 +136,27 @@ def schedules(R: Run):
     NOGC = frozenset(S.COARSE | {"rd", "wr", "sget"})  # everything but get_client(), which is thread-local
     C2 = frozenset({"acq", "create", "upload", "complete", "vget"})
 
+    hot = {"on": False}
+
+    def early_mismatch(n0):
+        """sample this configuration's lines through the driver right away: a changed protocol is noticed
+        before the remaining configurations are enumerated at full budget"""
+        if R.proof_break or hot["on"]:
+            return
+        idx = list(range(n0, len(R.lines)))
+        idx = idx[:: max(1, len(idx) // 200)][:250]
+        try:
+            outs = run_driver("C18", [R.lines[i] for i in idx])
+        except Exception:  # pylint: disable=broad-except
+            return
+        if any(R.real[i] != o for i, o in zip(idx, outs)):
+            hot["on"] = True
+
     def exhaustive(variant, kinds, workers, coarse, tag, gate=False, oracle=True):
-        # wall-clock valve per configuration, far above what the unchanged protocol needs; once a failing
-        # input is known, later configurations are only sampled
-        budget = 3 if R.oracle_failures else R.pick(25, 240)
+        # wall-clock valve per configuration, far above what the unchanged protocol needs; once the protocol is
+        # known to have changed (failing input or model mismatch), later configurations are only sampled
+        budget = 2 if (R.oracle_failures or hot["on"]) else R.pick(15, 240)
+        n0 = len(R.lines)
         obs, truncated = S.enumerate_all(kinds, workers, coarse, procs=procs, gate_fin=gate, budget_s=budget)
         if truncated:
             R.notes.append(f"enumeration truncated for {variant} {kinds} {workers} ({tag}): more interleavings "
@@ -145,8 +164,11 @@ def schedules(R: Run):
         for o in obs:
             check_run(R, variant, kinds, workers, gate, o, tag, oracle)
         R.count(f"schedules:{variant}:{tag}:{'+'.join(kinds)}:{workers}", len(obs))
+        early_mismatch(n0)
 
     def rand(variant, kinds, workers, n, gate=False, oracle=True):
+        if R.oracle_failures or hot["on"]:
+            n = min(n, 60)
         seeds = [R.rng.randrange(1 << 60) for _ in range(n)]
         for o in S.random_runs(kinds, workers, seeds, procs=procs, gate_fin=gate):
             check_run(R, variant, kinds, workers, gate, o, "random-fine", oracle)
@@ -170,6 +192,40 @@ def schedules(R: Run):
     if not R.quick:
         for workers in ([0, 1, 1], [0, 0, 0], [0, 1, 2]):
             exhaustive("dist", ["w1", "w2", "w3"], workers, C2, "coarse3")
+    # ---- histories: state carried across attempts in one process / on one scheduler.  Earlier phases run
+    # sequentially, then every interleaving of the attempt is explored; oracle = the attempt initiates exactly
+    # one upload of its own and everything goes under it.  The client appears / disappears between phases.
+    HS = S.COARSE if R.quick else CW
+    att = lambda client, end, workers=None: {"op": "attempt", "client": client, "parts": [1, 2],  # noqa: E731
+                                              "workers": workers, "end": end}
+    hist_dist = {
+        "asked-before-client-existed": [{"op": "ask", "client": False}],
+        "in-process-attempt-first": [att(False, "finalise")],
+        "crashed-attempt": [att(True, "crash", [0, 1])],
+        "aborted-attempt": [att(True, "abort", [0, 1])],
+        "finalised-attempt": [att(True, "finalise", [0, 1])],
+        "crashed-twice-then-asked": [att(True, "crash", [0, 0]), att(True, "crash", [1, 0]), {"op": "ask", "client": False}],
+    }
+    for nm, pre in hist_dist.items():
+        exhaustive("dist", ["w1", "w2"], [0, 1], HS, f"hist:{nm}", gate={"pre": pre})
+        exhaustive("dist", ["w1", "w2", "f"], [0, 0, 1], S.COARSE, f"hist:{nm}", gate={"pre": pre, "gate": True})
+    hist_local = {
+        "cluster-attempt-first": [att(True, "crash", [0, 1])],
+        "asked-while-client-existed": [{"op": "ask", "client": True}],
+        "crashed-in-process-attempt": [att(False, "crash")],
+        "finalised-in-process-attempt": [att(False, "finalise"), {"op": "ask", "client": True}],
+    }
+    for nm, pre in hist_local.items():
+        exhaustive("local", ["w1", "w2"], None, HS, f"hist:{nm}", gate={"pre": pre})
+        exhaustive("local", ["w1", "w2", "f"], None, S.COARSE, f"hist:{nm}", gate={"pre": pre, "gate": True})
+    # ---- copies of the writer: per-worker copies by deepcopy instead of pickle; copies (pickle / deepcopy /
+    # copy) taken after the first write and used for later writes and the finalise
+    exhaustive("dist", ["w1", "w2"], [0, 1], HS, "copies:deepcopy", gate={"copies": "deepcopy"})
+    exhaustive("dist", ["w1", "w2", "f"], [0, 1, 1], S.COARSE, "copies:deepcopy", gate={"copies": "deepcopy", "gate": True})
+    for late in (["pickle", "deepcopy", "copy"], ["copy", "pickle", "deepcopy"], ["deepcopy", "copy", "pickle"]):
+        o = {"chain": True, "late_clone": [None] + late}
+        exhaustive("local", ["w1", "w2", "w3", "f"], None, S.COARSE, "copies:late", gate=o)
+        exhaustive("dist", ["w1", "w2", "w3", "f"], [0, 0, 0, 0], S.COARSE, "copies:late", gate=o)
     # ---- random fine-grained schedules of three / four threads, with stutter steps
     n = R.pick(400, 6000)
     rand("local", ["w1", "w2", "w3"], None, n)
@@ -495,7 +551,7 @@ def replay(R: Run, rec) -> int:
         print("real :", obs["text"])
         try:
             R.proof_stage()
-            line = sched_line(case["variant"], case["kinds"], case["workers"], case["schedule"])
+            line = sched_line(case["variant"], case["kinds"], case["workers"], case["schedule"], obs.get("extra", ""))
             print("model (repaired code):", run_driver("C18", [line])[0])
             if case["variant"] == "local":
                 print("model (code as found):", run_driver("C18", [line.replace("local T", "local F", 1)])[0])
